@@ -292,7 +292,15 @@ func (g *docGen) genSections() map[string]json.RawMessage {
 
 	var tg trtypes.GenesisState
 	g.fill(reflect.ValueOf(&tg).Elem(), "", 0)
-	tg.Registry.Entries = uniqBy(tg.Registry.Entries, func(e *trtypes.RegistryEntry) string { return e.Denom })
+	// the registry is one list, stored as given: a denom may be listed more than once (MsgSetRegistry allows it),
+	// with copies that differ; readers use the first
+	if es := tg.Registry.Entries; len(es) > 0 {
+		c := *es[g.r.Intn(len(es))]
+		c.Decimals = int64(g.r.Intn(19))
+		c.Permissions = nil
+		c.DisplayName = "later copy"
+		tg.Registry.Entries = append(es, &c)
+	}
 	out["tokenregistry"] = cdc.MustMarshalJSON(&tg)
 	return out
 }
